@@ -88,12 +88,28 @@ def r2_sort_keys(ctx):
         keys = _lexsort_keys(c)
         ctx.ob(f.where, "encoded-chromosome path sorts by chromosome, then start, then stop (lexsort keys are listed last-key-first)",
                keys == [f"{iv}.stop", f"{iv}.start", f"{iv}.chromosome"], str(keys), key="C08-R2|lexsort")
-    srt = [c for c in func_calls(f.node) if u(c.func) == "sorted"]
-    ctx.need(len(srt) == 1 and isinstance(srt[0].args[0], ast.GeneratorExp), "sort_intervals: sorted(...) path not found")
-    ge = srt[0].args[0]
-    ok = isinstance(ge.elt, ast.Tuple) and len(ge.elt.elts) == 4 and [sym.canon(e) for e in ge.elt.elts] == \
-        ["chromosome_key_function(interval.chromosome.to_string())", "interval.start", "interval.stop", "i"] and sym.canon(ge.generators[0].iter) == f"enumerate({iv})"
-    ctx.ob(f.where, "generic path sorts (chromosome key, start, stop) tuples and carries the row index", ok, u(ge.elt), key="C08-R2|sorted-tuple")
+    srt = [c for c in func_calls(f.node) if u(c.func) == "sorted" and c.args and not (isinstance(c.args[0], ast.Call) and u(c.args[0].func).endswith(".keys"))]
+    ctx.need(len(srt) == 1, "sort_intervals: sorted(...) path not found")
+    arg = srt[0].args[0]
+    env2 = local_env(f.node)
+    if isinstance(arg, ast.GeneratorExp):
+        ge = arg
+        ok = isinstance(ge.elt, ast.Tuple) and len(ge.elt.elts) == 4 and [sym.canon(e) for e in ge.elt.elts] == \
+            ["chromosome_key_function(interval.chromosome.to_string())", "interval.start", "interval.stop", "i"] and sym.canon(ge.generators[0].iter) == f"enumerate({iv})"
+        detail = u(ge.elt)
+    elif isinstance(arg, ast.Call) and u(arg.func) == "zip" and len(arg.args) == 4:
+        # the same key tuple built column-wise: (keys of the chromosome column, start column, stop column, row numbers)
+        comps = [inline_locals(a, env2) for a in arg.args]
+        cols = []
+        for c in comps:
+            names = {x.attr for x in ast.walk(c) if isinstance(x, ast.Attribute) and u(x.value) == iv}
+            cols.append(sorted(names))
+        ok = cols[0] == ["chromosome"] and "chromosome_key_function" in u(comps[0]) and cols[1] == ["start"] and cols[2] == ["stop"] and \
+            sym.canon(comps[3]) in (f"range(len({iv}))", f"np.arange(len({iv}))")
+        detail = str(cols)
+    else:
+        raise Unrecognised(f"{f.where}: the generic sort path builds its keys in an unknown form: {u(arg)[:100]}")
+    ctx.ob(f.where, "generic path sorts (chromosome key, start, stop) tuples and carries the row index", ok, detail, key="C08-R2|sorted-tuple")
     ok = any(isinstance(n, ast.Assign) and u(n.targets[0]) == "indices" and sym.same(n.value, "list(map(itemgetter(-1), s))") for n in body_walk(f.node))
     rets = [n for n in body_walk(f.node) if isinstance(n, ast.Return)]
     ok = ok and all(u(r.value) in (f"{iv}[args]", f"{iv}[indices]") for r in rets)
